@@ -63,6 +63,10 @@ M = [
   "    def acquire_command(self, run_id):\n        return run_id.cmdline_for_next_invocation()", "    pass"),
  ('C03', 'a07-report-step-without-env', 'rebench/model/profiler.py',
   "run(cmdline, run_id.env, cwd=location,", "run(cmdline, {}, cwd=location,"),
+ ('C03', 's01-extra-args-stringified-in-data-file', 'rebench/model/benchmark.py',
+  'result["extra_args"] = self.extra_args', 'result["extra_args"] = str(self.extra_args)'),
+ ('C03', 's02-empty-env-does-not-clear', 'rebench/model/exp_run_details.py',
+  "env = none_or_dict(config.get('env', defaults.env))", "env = none_or_dict(config.get('env') or defaults.env)"),
  # ---------------------------------------------------------------- C20
  ('C20', 'n01-no-finally', 'rebench/rebench.py',
   "            finally:\n                restore_noise(denoise_result, show_denoise_warnings, self.ui)",
